@@ -378,6 +378,21 @@ def run_collisions(ctx, C, seed, have_model):
                      expected=f"sha256 {str(r0['sha'])[:16]} (emit(parse(program)) alone)", observed=f"sha256 {str(r['sha'])[:16]}", key="interleaving")
     dist["interleaving_shapes"] = shapes
 
+    # ------------------------------------------------------------------ concurrent transpilations (threads of one process)
+    th_idx = rng.sample(fwd, min(n, 40 if thorough else 20))
+    th = C.run_impl("c10_impl.py", {"mode": "threads", "sources": [psrc[i] for i in th_idx], "threads": 4, "rounds": 3 if thorough else 2},
+                    env_extra={"PYTHONHASHSEED": str(seed)}, timeout=1200)["results"]
+    for i, shas in zip(th_idx, th):
+        evaluations += 1
+        r0 = res_reset.get(i, res["forward"][i])
+        if shas != [r0["sha"]] and budget.get("threads", 0) < 3:
+            budget["threads"] = budget.get("threads", 0) + 1
+            ctx.fail("a program transpiled while other threads of the process transpile other programs gives another text",
+                     {"program": psrc[i], "other_programs": [psrc[j] for j in th_idx if j != i][:6], "threads": 4, "hashseed": seed,
+                      "replay": 'echo \'{"mode": "threads", "sources": [...], "threads": 4, "rounds": 2}\' | PYTHONPATH=/repo/src python harness/impl/c10_impl.py'},
+                     expected=f"sha256 {str(r0['sha'])[:16]} (emit(parse(program)) alone)", observed=[str(x)[:16] for x in shas], key="threads")
+    dist["programs_transpiled_by_4_concurrent_threads"] = len(th_idx)
+
     # ------------------------------------------------------------------ the fragment of Lang/DevSession.v: correspondence + oracle
     n_dev = 900 if thorough else 220
     dprogs = [dev_program(rng) for _ in range(n_dev)]
